@@ -1,6 +1,10 @@
 use crate::fw::Prop;
 
+pub mod c01;
+pub mod c02;
 pub mod c03;
+pub mod c04;
+pub mod c05;
 pub mod c06;
 pub mod c07;
 pub mod c08;
@@ -26,6 +30,8 @@ pub mod c28;
 pub mod c30;
 pub mod c31;
 pub mod c32;
+pub mod c33;
+pub mod c34;
 pub mod c35;
 pub mod c36;
 pub mod c37;
@@ -34,10 +40,15 @@ pub mod features_util;
 pub mod floatlit_util;
 pub mod library_util;
 pub mod pat_util;
+pub mod text_util;
 
 pub fn all() -> Vec<Box<dyn Prop>> {
     vec![
+        Box::new(c01::C01),
+        Box::new(c02::C02),
         Box::new(c03::C03),
+        Box::new(c04::C04),
+        Box::new(c05::C05),
         Box::new(c06::C06),
         Box::new(c07::C07),
         Box::new(c08::C08),
@@ -64,6 +75,8 @@ pub fn all() -> Vec<Box<dyn Prop>> {
         Box::new(c30::C30),
         Box::new(c31::C31),
         Box::new(c32::C32),
+        Box::new(c33::C33),
+        Box::new(c34::C34),
         Box::new(c35::C35),
         Box::new(c36::C36),
         Box::new(c37::C37),
